@@ -59,12 +59,19 @@ func (k Keeper) SetEarnedFees(ctx sdk.Context, provider sdk.AccAddress, fees sdk
 func (k Keeper) GetEarnedFees(ctx sdk.Context, provider sdk.AccAddress) (fees sdk.Coins, found bool) {
 	store := ctx.KVStore(k.storeKey)
 
-	iterator := sdk.KVStorePrefixIterator(store, types.GetEarnedFeesSubspace(provider))
+	prefix := types.GetEarnedFeesSubspace(provider)
+	iterator := sdk.KVStorePrefixIterator(store, prefix)
 
 	fees = sdk.NewCoins()
 	for ; iterator.Valid(); iterator.Next() {
 		var balance sdk.Coin
 		k.cdc.MustUnmarshalBinaryBare(iterator.Value(), &balance)
+
+		// skip the records of other providers whose address extends this one
+		if string(iterator.Key()[len(prefix):]) != balance.Denom {
+			continue
+		}
+
 		fees = fees.Add(balance)
 	}
 
@@ -74,9 +81,18 @@ func (k Keeper) GetEarnedFees(ctx sdk.Context, provider sdk.AccAddress) (fees sd
 // DeleteEarnedFees removes the earned fees of the specified provider
 func (k Keeper) DeleteEarnedFees(ctx sdk.Context, provider sdk.AccAddress) {
 	store := ctx.KVStore(k.storeKey)
-	iterator := sdk.KVStorePrefixIterator(store, types.GetEarnedFeesSubspace(provider))
+	prefix := types.GetEarnedFeesSubspace(provider)
+	iterator := sdk.KVStorePrefixIterator(store, prefix)
 
 	for ; iterator.Valid(); iterator.Next() {
+		var balance sdk.Coin
+		k.cdc.MustUnmarshalBinaryBare(iterator.Value(), &balance)
+
+		// skip the records of other providers whose address extends this one
+		if string(iterator.Key()[len(prefix):]) != balance.Denom {
+			continue
+		}
+
 		store.Delete(iterator.Key())
 	}
 }
